@@ -10,7 +10,7 @@ from pyvc.source import live_module
 EV = dict(tick=INT, timestamp=TD, _proximal_bpm_event_index=INT)
 
 
-def _enum(key, value_shape):
+def _enum(key, value_shape, ordinal=False):
     mod, q = key.split(":")
     cls = live_module(mod)
     for part in q.split("."):
@@ -19,7 +19,7 @@ def _enum(key, value_shape):
     # itself a member (value: the TypeVar); it can never equal a parsed value and is left out.
     import typing
     members = [(m.name, m.value) for m in cls if not isinstance(m.value, typing.TypeVar)]
-    return EnumS(key, value_shape, members)
+    return EnumS(key, value_shape, members, ordinal=ordinal)
 
 
 def build():
@@ -27,9 +27,9 @@ def build():
     S["NoteTrackIndex"] = _enum("chartparse.instrument:NoteTrackIndex", INT)
     S["Note"] = _enum("chartparse.instrument:Note", TupS([INT] * 5))
     S["HOPOState"] = _enum("chartparse.instrument:HOPOState", INT)
-    S["Instrument"] = _enum("chartparse.instrument:Instrument", STR)
-    S["Difficulty"] = _enum("chartparse.instrument:Difficulty", STR)
-    S["Player2Instrument"] = _enum("chartparse.metadata:Player2Instrument", STR)
+    S["Instrument"] = _enum("chartparse.instrument:Instrument", STR, ordinal=True)
+    S["Difficulty"] = _enum("chartparse.instrument:Difficulty", STR, ordinal=True)
+    S["Player2Instrument"] = _enum("chartparse.metadata:Player2Instrument", STR, ordinal=True)
     S["NoteDuration"] = None
 
     S["BPMEvent"] = RecS("chartparse.sync:BPMEvent", dict(EV, bpm=REAL))
